@@ -177,6 +177,38 @@ func applyCrash(o *childOut, markFile string) {
 	}
 }
 
+// genericCrashSignature names the death of a child of any engine the way applyCrash does for
+// engines that mark their deliveries: crash|<engine>|<innermost frame of the library or its
+// dependency>|<fatal message without numbers>.
+func genericCrashSignature(engine, stderr string) string {
+	msg := "process died"
+	if m := fatalRe.FindString(stderr); m != "" {
+		msg = m
+		if len(msg) > 80 {
+			msg = msg[:80]
+		}
+	}
+	frame := "?"
+	for _, ln := range strings.Split(stderr, "\n") {
+		t := strings.TrimSpace(ln)
+		if strings.HasPrefix(t, "github.com/jcmturner/") {
+			frame = strings.TrimPrefix(t, "github.com/jcmturner/")
+			if i := strings.LastIndex(frame, "("); i > 0 {
+				frame = frame[:i]
+			}
+			break
+		}
+	}
+	what := strings.SplitN(msg, ":", 3)[0]
+	if parts := strings.SplitN(msg, ": ", 2); len(parts) == 2 {
+		what = numRe.ReplaceAllString(parts[1], "N")
+		if i := strings.Index(what, " ("); i > 0 {
+			what = what[:i]
+		}
+	}
+	return "crash|" + engine + "|" + frame + "|" + what
+}
+
 func getMeta(bin string) (core.Meta, error) {
 	o := runChild(childOpts{Bin: bin, Mode: "meta", Timeout: 60 * time.Second})
 	var m core.Meta
